@@ -40,4 +40,33 @@ theorem pass_of_steps (alg : AtomAlg A) (lit : List Char → A) (P : List Nat) (
   obtain ⟨c, hc, st⟩ := h
   exact operate_of_steps dflt alg P ot _ _ c hc (by simpa using st)
 
+/-- the nine passes over the token list of a well-formed expression leave its value -/
+theorem tokens_eq_eval (alg : AtomAlg A) (lit : List Char → A) (hn : NegNeg alg)
+    (e : E) (hwf : e.WF) :
+    solveToks dflt alg dfltSteps (toks dflt alg lit e) = .ok (.atom (eval alg lit e)) := by
+  have p0 := pass_of_steps alg lit P0 .args 0 e (args_pass alg lit e [] [])
+  have p1 := pass_of_steps alg lit P1 .unary 1 e (sign_pass alg lit hn e hwf [] [] (fun _ => trivial))
+  have p2 := pass_of_steps alg lit [10] .binary 2 e (binary_pass alg lit [10] 2 binPass2 e hwf [] [])
+  have p3 := pass_of_steps alg lit [11, 12] .binary 3 e (binary_pass alg lit _ 3 binPass3 e hwf [] [])
+  have p4 := pass_of_steps alg lit [13, 14] .binary 4 e (binary_pass alg lit _ 4 binPass4 e hwf [] [])
+  have p5 := pass_of_steps alg lit [15, 16, 18, 19, 20, 21] .binary 5 e
+    (binary_pass alg lit _ 5 binPass5 e hwf [] [])
+  have p6 := pass_of_steps alg lit [17] .unary 6 e (not_pass alg lit e hwf [] [])
+  have p7 := pass_of_steps alg lit [22] .binary 7 e (binary_pass alg lit _ 7 binPass7 e hwf [] [])
+  have p8 := pass_of_steps alg lit [23] .binary 8 e (binary_pass alg lit _ 8 binPass8 e hwf [] [])
+  unfold solveToks
+  rw [runSteps_resolved, resolve_steps, ← flat_zero]
+  simp only [runResolved, List.isEmpty_cons, Bool.false_eq_true, if_false, P0, P1] at *
+  rw [p0]; simp only []
+  rw [p1]; simp only []
+  rw [p2]; simp only []
+  rw [p3]; simp only []
+  rw [p4]; simp only []
+  rw [p5]; simp only []
+  rw [p6]; simp only []
+  rw [p7]; simp only []
+  rw [p8]; simp only []
+  rw [flat_nine]
+  rfl
+
 end SciVerif.C01
